@@ -132,6 +132,13 @@ class Spec:
             if t is False:
                 return self._decide_expr(e.orelse, node, depth + 1)
             return None
+        if isinstance(e, ast.Compare) and len(e.ops) == 1 and not isinstance(e.left, ast.Name) and isinstance(e.comparators[0], ast.Constant) \
+                and e.comparators[0].value is None and isinstance(e.ops[0], (ast.Is, ast.IsNot)) and isinstance(e.left, (ast.IfExp, ast.BoolOp)):
+            # None-ness of a conditional / `x or None` expression written in place
+            nn = self._expr_nullness(e.left, node, depth + 1)
+            if nn is not None:
+                return nn if isinstance(e.ops[0], ast.Is) else (not nn)
+            return None
         if isinstance(e, ast.Compare) and len(e.ops) == 1 and isinstance(e.left, ast.Name) and isinstance(e.comparators[0], ast.Constant) \
                 and e.comparators[0].value is None and isinstance(e.ops[0], (ast.Is, ast.IsNot)) and self.rd is not None:
             # None-ness of a local: decided when every live definition is known to be None / known not to be
@@ -185,6 +192,33 @@ class Spec:
                 return vals.pop()
         return None
 
+    def _expr_nullness(self, e, node, depth) -> Optional[bool]:
+        """True: the expression is None, False: it is not, None: unknown"""
+        if depth > 8:
+            return None
+        if isinstance(e, ast.Constant):
+            return e.value is None
+        if isinstance(e, ast.IfExp):
+            t = self._decide_expr(e.test, node, depth + 1)
+            if t is True:
+                return self._expr_nullness(e.body, node, depth + 1)
+            if t is False:
+                return self._expr_nullness(e.orelse, node, depth + 1)
+            a, b = self._expr_nullness(e.body, node, depth + 1), self._expr_nullness(e.orelse, node, depth + 1)
+            return a if a is not None and a == b else None
+        if isinstance(e, ast.BoolOp) and isinstance(e.op, ast.Or):
+            for v in e.values[:-1]:
+                d = self._decide_expr(v, node, depth + 1)
+                if d is True:
+                    return False            # a truthy operand is the result: not None
+                if d is None:
+                    return None
+            return self._expr_nullness(e.values[-1], node, depth + 1)
+        d = self._decide_expr(e, node, depth + 1)
+        if d is True:
+            return False
+        return None
+
     def _nullness(self, kind, p, depth) -> Optional[bool]:
         """True: certainly None, False: certainly not None, None: unknown (for one leaf returned by sources)"""
         if kind != "expr" or not isinstance(p, ast.AST) or depth > 8:
@@ -201,6 +235,8 @@ class Spec:
         if isinstance(p, ast.Lambda):
             return False
         at = self.where.get(id(p))
+        if isinstance(p, (ast.IfExp, ast.BoolOp)):
+            return self._expr_nullness(p, at, depth + 1)
         d = self._decide_expr(p, at, depth + 1)
         if d is True:
             return False        # truthy => not None
